@@ -1,21 +1,21 @@
-SPECIFICATION PubMCSpec
+SPECIFICATION FloodSpec
 CONSTANTS
   Caps = {1}
   Classes = {}
-  MaxSend = 0
-  Wall = {0, 1}
-  MaxPublish = 3
-  Handles = {"p1", "p2"}
+  MaxSend = 1000
+  Wall = {}
+  MaxPublish = 0
+  Handles = {}
   GCaps = {1}
   SplitCommit = FALSE
   PendingWithoutWake = FALSE
   SkipBudget = 0
   BudgetSelfWake = FALSE
   ClockAsCoded = FALSE
-  FloodLens = {}
-  FloodCap = 1
-  KeepHist = TRUE
-  AtomicPolls = TRUE
+  FloodLens = {1, 31, 32, 33, 100, 127}
+  FloodCap = 128
+  KeepHist = FALSE
+  AtomicPolls = FALSE
 INVARIANTS
-  ExportPub
+  ExportFlood
 CHECK_DEADLOCK FALSE
